@@ -14,7 +14,7 @@ use crate::opt::OptCfg;
 use crate::statejson::{self, ShapeSpec};
 
 pub const TITLE: &str = "Same seed, same answer: results do not depend on threads or other replicas";
-pub const RULE: &str = "part batches: a batch of 4..24 optimisation tasks (hard polygon / hard discs / Lennard-Jones, any group, configurations with an explicit seed, 50..1500 steps, duplicates included), each run alone on the calling thread to obtain the reference JSON, then the whole batch run concurrently on rayon pools of generated sizes (1..16 threads; four batches at a time) in a generated submission order, every task cloning one shared input state per (kind, group, shape) inside its worker. Oracle: every concurrent result serialises byte-identically to its reference; the shared input states serialise byte-identically before and after. part cli: the real binary with generated arguments under RAYON_NUM_THREADS in {1,2,3,5,8,16} and repeated; .json and .svg byte-identical throughout. Non-trivial = a pool run in which >= 2 tasks were observed running at the same time on >= 2 distinct worker threads (counted with an atomic in-flight counter, no clock), or a CLI case with >= 2 replications; distinct by hash of the case.";
+pub const RULE: &str = "part batches: a batch of 4..24 optimisation tasks (hard polygon / hard discs / Lennard-Jones, any group, configurations with an explicit seed, 50..1500 steps, duplicates included), each run alone on the calling thread to obtain the reference JSON, then the whole batch run concurrently on rayon pools of generated sizes (1..16 threads; four batches at a time) in a generated submission order, every task cloning one shared input state per (kind, group, shape) inside its worker. Oracle: every concurrent result serialises byte-identically to its reference; the shared input states serialise byte-identically before and after. part cli: the real binary with generated arguments under RAYON_NUM_THREADS in {1,2,3,5,8,16} and repeated (a quarter of the cases with 8..24 replicas and a step size of 1e-8..1e-10, so that the replicas nearly tie); .json and .svg byte-identical throughout. part selection: 3..40 states whose scores form chains of near-ties (relative differences 1e-14..1e-7): the best one selected by a parallel max() on pools of 1..16 threads must be the state selected sequentially. Non-trivial = a pool run in which >= 2 tasks were observed running at the same time on >= 2 distinct worker threads (counted with an atomic in-flight counter, no clock), or a CLI case with >= 2 replications; distinct by hash of the case.";
 
 pub fn assumptions() -> Vec<&'static str> {
     vec![
@@ -211,9 +211,15 @@ fn cli_strat(_: &Ctx) -> BoxedStrategy<CliCase> {
         Just(CliShape::Circle),
         (0.3..1.2f64, 30.0..180.0f64, 0.4..1.0f64).prop_map(|(distance, angle, radius)| CliShape::Trimer { distance: Some(distance), angle: Some(angle), radius: Some(radius) }),
     ];
-    (0usize..7, shape, any::<bool>(), 1i64..=6, prop_oneof![Just(100i64), Just(400)], proptest::collection::vec(proptest::sample::select(vec![1usize, 2, 3, 5, 8, 16]), 2..=3))
-        .prop_map(|(g, shape, lj, replications, steps, threads)| {
+    (0usize..7, shape, any::<bool>(), 1i64..=6, prop_oneof![Just(100i64), Just(400)], proptest::collection::vec(proptest::sample::select(vec![1usize, 2, 3, 5, 8, 16]), 2..=3), prop_oneof![3 => Just(None), 1 => (8i64..=24, prop_oneof![Just(1e-9f64), Just(1e-10), Just(1e-8)]).prop_map(Some)])
+        .prop_map(|(g, shape, lj, replications, steps, threads, near_ties)| {
             let lj = lj && !matches!(shape, CliShape::Polygon { .. });
+            // near-tie regime: many replicas that barely move, so that their scores agree to many digits and the
+            // selection of the best one is the only thing a schedule could influence
+            let (replications, max_step) = match near_ties {
+                Some((k, m)) => (k, m),
+                None => (replications, 0.1),
+            };
             CliCase {
                 args: CliArgs {
                     group: geom::GROUP_NAMES[g].to_string(),
@@ -225,7 +231,7 @@ fn cli_strat(_: &Ctx) -> BoxedStrategy<CliCase> {
                     kt_start: Some(0.1),
                     kt_finish: None,
                     kt_ratio: Some(0.3),
-                    max_step_size: Some(0.1),
+                    max_step_size: Some(max_step),
                     convergence: None,
                 },
                 threads,
@@ -276,10 +282,93 @@ fn cli_oracle(c: &CliCase, rec: &Rec, ctx: &Ctx) -> Result<(), String> {
     Ok(())
 }
 
+// ------------------------------------------------------------------------------------------------
+// selecting the best of many states in parallel (what the CLI does with its replicas)
+
+#[derive(Clone, Debug, Serialize, Deserialize)]
+pub struct SelectCase {
+    pub group: usize,
+    pub lj: bool,
+    pub sides: usize,
+    /// the cells differ by multiples of this relative amount: chains of near-ties
+    pub delta_exp: f64,
+    pub states: Vec<(u8, f64, f64)>,
+    pub pools: Vec<usize>,
+}
+
+fn select_strat(_: &Ctx) -> BoxedStrategy<SelectCase> {
+    (0usize..7, any::<bool>(), 3usize..=8, -14.0..-7.0f64, proptest::collection::vec((0u8..6, -0.5..0.5f64, -0.5..0.5f64), 3..=40), proptest::collection::vec(1usize..=16, 2..=4))
+        .prop_map(|(group, lj, sides, delta_exp, states, pools)| SelectCase { group, lj, sides, delta_exp, states, pools })
+        .boxed()
+}
+
+fn select_generic<S>(states: Vec<S>, pools: &[usize]) -> Result<usize, String>
+where
+    S: State + Clone + Send + Sync + Serialize,
+{
+    let reference = states.iter().cloned().max().ok_or("empty")?;
+    let ref_json = serde_json::to_string(&reference).unwrap_or_default();
+    for &t in pools.iter() {
+        let pool = rayon::ThreadPoolBuilder::new().num_threads(t).build().map_err(|e| e.to_string())?;
+        for rep in 0..3 {
+            let got = pool.install(|| states.par_iter().cloned().max()).ok_or("empty")?;
+            let j = serde_json::to_string(&got).unwrap_or_default();
+            if j != ref_json {
+                return Err(format!(
+                    "the best of {} states selected in parallel on {} threads (attempt {}) is a different state (score {:?}) than the one selected sequentially (score {:?})",
+                    states.len(),
+                    t,
+                    rep + 1,
+                    got.score(),
+                    reference.score()
+                ));
+            }
+        }
+    }
+    let mut d: Vec<u64> = states.iter().map(|s| s.score().unwrap_or(f64::NAN).to_bits()).collect();
+    d.sort();
+    d.dedup();
+    Ok(d.len())
+}
+
+fn select_oracle(c: &SelectCase, rec: &Rec, _: &Ctx) -> Result<(), String> {
+    let wg = statejson::wg(c.group);
+    let delta = 10f64.powf(c.delta_exp);
+    rec.eval(c.states.len() as u64);
+    let distinct = if c.lj {
+        let init = packing::PotentialState::from_group(packing::LJShape2::circle(), &wg).map_err(|e| e.to_string())?;
+        let p0 = statejson::params_of(&init).ok_or("params")?;
+        // the states differ in cell size (near-tie scores) and orientation (so that they are distinguishable);
+        // the initial site keeps the copies more than two radii apart whatever the orientation
+        let v: Result<Vec<_>, String> = c.states.iter().map(|(m, x, y)| statejson::with_params(&init, &statejson::Params { length: p0.length * 2. * (1. + *m as f64 * delta), phi: (x + 0.5) * 6.28 + y * 1e-3, ..p0.clone() })).collect();
+        select_generic(v?, &c.pools)?
+    } else {
+        let init = packing::PackedState::from_group(packing::LineShape::polygon(c.sides).map_err(|e| e.to_string())?, &wg).map_err(|e| e.to_string())?;
+        let p0 = statejson::params_of(&init).ok_or("params")?;
+        let v: Result<Vec<_>, String> = c.states.iter().map(|(m, x, y)| statejson::with_params(&init, &statejson::Params { length: p0.length * (1. + *m as f64 * delta), phi: (x + 0.5) * 6.28 + y * 1e-3, ..p0.clone() })).collect();
+        let v = v?;
+        if v.iter().any(|s| s.score().is_none()) {
+            rec.class("selection/skipped-undefined-score");
+            return Ok(());
+        }
+        select_generic(v, &c.pools)?
+    };
+    let class = format!("selection/{}{}", if c.lj { "lj" } else { "hard" }, if distinct >= 3 { "/near-tie-chain" } else { "" });
+    rec.class(&class);
+    if distinct >= 3 {
+        rec.nontrivial(hash_json(&serde_json::to_value(c).unwrap()));
+    }
+    if rec.wants_sample(&class) {
+        rec.sample(&class, || serde_json::to_value(c).unwrap());
+    }
+    Ok(())
+}
+
 pub fn parts() -> Vec<PartDef> {
     // the batches run their own thread pools: few harness shards, and little shrinking (a batch is expensive)
     vec![
         part_opts("batches", 300, 12_000, batch_strat, batch_oracle, |c: &BatchCase, _: &dyn Fn(&BatchCase) -> bool| c.clone(), PartOpts { max_shards: 4, max_shrink_iters: 24 }),
         part("cli", 120, 2_400, cli_strat, cli_oracle),
+        part_opts("selection", 2_000, 60_000, select_strat, select_oracle, |c: &SelectCase, _: &dyn Fn(&SelectCase) -> bool| c.clone(), PartOpts { max_shards: 4, max_shrink_iters: 64 }),
     ]
 }
